@@ -170,3 +170,25 @@ func VerifC14TableRaw(s *Session) []uint16 {
 	return r
 }
 func VerifC14EntryRaw(s *Session, i uint16) *Job { return s.jobs[i] }
+
+// ---- fragmented results: the real receive() on the server-side session ------------------------
+// verifC14SyncMux runs an event at once on the calling goroutine (what the Server event thread
+// does later): a completed fragment group reaches Session.handle synchronously.
+type verifC14SyncMux struct{ n int32 }
+
+func (m *verifC14SyncMux) close()     {}
+func (m *verifC14SyncMux) count() int { return int(atomic.LoadInt32(&m.n)) }
+func (m *verifC14SyncMux) queue(e event) {
+	atomic.AddInt32(&m.n, 1)
+	e.process(cout.Log{})
+}
+
+// VerifC14SessionSync is VerifC14Session whose events are processed synchronously.
+func VerifC14SessionSync() *Session {
+	s := VerifC14Session()
+	s.m = &verifC14SyncMux{}
+	return s
+}
+
+// VerifC14Receive hands a packet to receive() exactly as Listener.talk does for a known session.
+func VerifC14Receive(s *Session, n *com.Packet) error { return receive(s, s.parent, n) }
